@@ -1,5 +1,9 @@
 (* Correspondence cases for C01: one event that the harness handed to the real
-   Serialize(), Verify() and Valid(), with what they answered.
+   Serialize(), Verify() and Valid(), with what they answered; or a sequence of
+   such events handed to the real code one after the other in one process (the
+   verdict on an event must not depend on what was verified before it: the
+   model and the specification are functions of the event alone, so every
+   element of a sequence is judged exactly as a single event is).
 
    SHA-256 and BIP-340 are oracles of the model (Section variables H, PK, SG,
    V of Ser.v).  Here they are instantiated by finite tables that the harness
@@ -28,7 +32,9 @@ Record obs := mkObs {
                                 2 an authentic event whose id/sig text was put in another hex case *)
 }.
 
-Definition case := obs.
+Inductive case :=
+| One (o : obs)
+| Seq (l : list obs).
 
 Definition opt_is (o : option str) (s : str) : bool :=
   match o with Some t => str_eqb s t | None => false end.
@@ -98,4 +104,8 @@ Definition spec_ok (c : obs) : bool :=
       else if o_expect c =? 0 then negb (o_res c =? 1) && negb (o_res c =? 3)
       else (o_res c =? 1) && negb (o_valid c)).
 
-Definition run_case (c : case) : bool * bool := (model_ok c, spec_ok c).
+Definition run_case (c : case) : bool * bool :=
+  match c with
+  | One o => (model_ok o, spec_ok o)
+  | Seq l => (forallb model_ok l, forallb spec_ok l)
+  end.
